@@ -2,6 +2,7 @@ import DimodModel.Cpp
 import DimodModel.CppCover
 import DimodModel.CheckedCqm
 import DimodModel.CyCqmVars
+import DimodModel.CqmChangeVartype
 import DimodModel.Wire
 open Wire
 
@@ -206,6 +207,17 @@ def cqmLine (ws : List String) : String :=
       let obj ← parseExprC obj
       let cons ← (if cons = "-" then [] else cons.splitOn ";").mapM parseExprC
       pure { vt := vts, lb := lb, ub := ub, obj := obj, cons := cons.map fun e => ({ e := e } : Cons) }
+    match m?, op with
+    | some m, ["ccv", t, v] =>
+      -- `change_vartype(t, v)` as coded (`Cqm.changeVartypeC`, checked by `Cqm.changeVartypeC?`)
+      match vt4? t, v.toNat? with
+      | some t, some v =>
+        match m.changeVartypeC? t v with
+        | some (_, true) => "THROW"
+        | some (_, false) => showCqmC (m.changeVartypeC t v).1
+        | none => "UB"
+      | _, _ => "skip"
+    | _, _ =>
     match m?, parseCOp op with
     | some m, some o =>
       match m.cstep? o with
